@@ -204,3 +204,69 @@ class SymCountSet(_SymDictBase):
         return E.registry.iterspec(E, PySet(E.iterate_concrete(self.src)), None)
 
     getitem = setitem = has
+
+
+
+class SymSet(_SymDictBase):
+    """set() filled in a loop of symbolic length with keys of one z3 sort (ints, or opaque keys such as tuples of a symbolic-length row):
+    member: K -> Bool, plus the number of elements.  `s.add(k)`, `k in s`, `len(s)`, `sorted(s)` (see sorted_of)."""
+
+    def __init__(self, member, count, name="set"):
+        self.member, self.count, self.name = member, count, name
+
+    @staticmethod
+    def empty(name, key_sort):
+        return SymSet(z3.K(key_sort, z3.BoolVal(False)), z3.IntVal(0), name)
+
+    def key_sort(self):
+        return self.member.sort().domain()
+
+    def _key(self, k):
+        from .values import Opaque
+        t = k.term if isinstance(k, Opaque) else (z(k) if not isinstance(k, (list, tuple, dict)) else None)
+        if t is None or t.sort() != self.key_sort():
+            raise Unsupported("element %r for a symbolic set over %s" % (k, self.key_sort()))
+        return t
+
+    def has(self, E, k):
+        return z3.Select(self.member, self._key(k))
+
+    def method(self, E, name, args, kwargs, node):
+        if name == "add":
+            kk = self._key(args[0])
+            self.count = z3.simplify(self.count + z3.If(z3.Select(self.member, kk), 0, 1))
+            self.member = z3.Store(self.member, kk, z3.BoolVal(True))
+            return None
+        raise Unsupported("method %s of a symbolic set" % name)
+
+    def getitem(self, E, k, node):
+        E.raise_("TypeError", node, "safety")
+
+    setitem = getitem
+
+    def iterspec(self, E):
+        raise Unsupported("iteration over a symbolic set (sort it first)")
+
+    def size(self):
+        return self.count
+
+    def snapshot(self):
+        return SymSet(self.member, self.count, self.name)
+
+    def sorted_of(self, E):
+        """sorted(s): a sequence without repetition of exactly the elements, as long as the set (the ORDER is the order of the keys,
+        which nothing here depends on): ghost functions item: position -> element, pos: element -> position, inverse of each other"""
+        from .values import Opaque, fresh_name
+        from .engine import SymSeq
+        ks = self.key_sort()
+        item = z3.Function(fresh_name("sorted_item"), z3.IntSort(), ks)
+        pos = z3.Function(fresh_name("sorted_pos"), ks, z3.IntSort())
+        n = self.count
+        key, j = z3.Const(fresh_name("sk"), ks), z3.Int(fresh_name("sj"))
+        mem = self.member
+        E.assume(n >= 0)
+        E.assume(z3.ForAll([key], z3.Implies(z3.Select(mem, key), z3.And(pos(key) >= 0, pos(key) < n, item(pos(key)) == key)), patterns=[pos(key)]))
+        E.assume(z3.ForAll([j], z3.Implies(z3.And(j >= 0, j < n), z3.And(z3.Select(mem, item(j)), pos(item(j)) == j)), patterns=[item(j)]))
+        seq = SymSeq(n, lambda k_: Opaque(item(k_), "key") if ks.kind() == z3.Z3_UNINTERPRETED_SORT else item(k_), "sorted")
+        seq.sorted_of = (self.snapshot(), item, pos)
+        return seq
